@@ -21,6 +21,7 @@ mod poolop;
 mod sched;
 mod sched_async;
 mod server;
+mod shutop;
 mod tlsop;
 
 use std::io::{BufRead, Write};
@@ -47,6 +48,8 @@ fn eval(op: &str, args: &[&str]) -> Option<Vec<String>> {
         "tls" => tlsop::tls(args),
         "pool" => poolop::pool(args),
         "wstall" => poolop::wstall(args),
+        "cstall" => poolop::cstall(args),
+        "shut" => shutop::shut(args),
         "transports" => c18::transports(args),
         "body" => c10::body(args),
         "hval" | "hvalrt" => c02::hval(args),
@@ -79,7 +82,10 @@ fn eval(op: &str, args: &[&str]) -> Option<Vec<String>> {
 }
 
 fn main() {
-    std::panic::set_hook(Box::new(|_| {}));
+    // LVH_SHOW_PANICS=1: print where a panic comes from (diagnosis of a PANIC verdict)
+    if std::env::var_os("LVH_SHOW_PANICS").is_none() {
+        std::panic::set_hook(Box::new(|_| {}));
+    }
     let stdin = std::io::stdin();
     let stdout = std::io::stdout();
     let mut out = std::io::BufWriter::new(stdout.lock());
